@@ -80,9 +80,12 @@ class C10(Check):
         if not lalr:
             if e.name == 'eamp' and r > 0.88:
                 return ['sibling', text, start, {'priority': rng.choice(['invert', 'normal'])}, cfg]
+            if e.name == 'lexonly':
+                # lexer-only instance (parser=None): lex() with and without dont_ignore, fully or partially consumed
+                return ['lex', text, rng.choice([None, None, k]), rng.random() < 0.3, rng.random() < 0.4]
             if r < 0.8 or stateful or 'dyn' in cfg:
                 return ['parse', text, start]
-            return ['lex', text, rng.choice([None, k]), rng.random() < 0.3]
+            return ['lex', text, rng.choice([None, k]), rng.random() < 0.3, rng.random() < 0.3]
         if r < 0.37:
             return ['parse', text, start]
         if r < 0.40 and e.input_kind == 'str' and not stateful:
@@ -90,7 +93,9 @@ class C10(Check):
         if r < 0.47:
             return ['parse_on_error', text, start]
         if r < 0.57:
-            return ['lex', text, rng.choice([None, k]), rng.random() < 0.3]
+            return ['lex', text, rng.choice([None, k]), rng.random() < 0.3, rng.random() < 0.3 and not stateful]
+        if r < 0.575:
+            return ['get_terminal', rng.choice(sorted(t.name for t in p.terminals))]
         if r < 0.60 and not stateful and mode == 'history':
             return ['lex_late', text]
         if r < 0.70 and not stateful:
